@@ -56,6 +56,12 @@ Definition op_sh_ser_pl (args : list sx) : sx :=
   | Some pl => sx_bytes_R (serialize_plist pl)
   | None => bad_args
   end.
+(* sh_ser_pi_seq pi... : one String() call per identifier, each on its own *)
+Definition op_sh_ser_pi_seq (args : list sx) : sx :=
+  match omap pi_of_sx args with
+  | Some pl => SL (map (fun pi => sx_bytes_R (serialize_plist [pi])) pl)
+  | None => bad_args
+  end.
 Definition op_sh_ser_lol (args : list sx) : sx :=
   match omap (fun s => match s with SL l => omap sh_item_of_sx l | _ => None end) args with
   | Some ll => sx_bytes_R (serialize_lol ll)
@@ -74,5 +80,6 @@ Definition dispatch_sh (op : bytes) (args : list sx) : option sx :=
   else if bytes_eqb op (s2b "sh_parse_lol") then Some (op_sh_parse_lol args)
   else if bytes_eqb op (s2b "sh_ser_pl") then Some (op_sh_ser_pl args)
   else if bytes_eqb op (s2b "sh_ser_lol") then Some (op_sh_ser_lol args)
+  else if bytes_eqb op (s2b "sh_ser_pi_seq") then Some (op_sh_ser_pi_seq args)
   else if bytes_eqb op (s2b "sh_parse_batch") then Some (op_sh_parse_batch args)
   else None.
